@@ -234,7 +234,9 @@ var emitPositions = []emitPos{
 	}, []interface{}{"endpoints", "sharedInbox"}},
 	{"Link.href", func(s string) ap.Item { return &ap.Link{ID: eid, Type: ap.LinkType, Href: ap.IRI(s)} }, []interface{}{"href"}},
 	{"Link.rel", func(s string) ap.Item { return &ap.Link{ID: eid, Type: ap.LinkType, Href: eid, Rel: ap.IRI(s)} }, []interface{}{"rel"}},
-	{"Link.hrefLang", func(s string) ap.Item { return &ap.Link{ID: eid, Type: ap.LinkType, Href: eid, HrefLang: ap.LangRef(s)} }, []interface{}{"hrefLang"}},
+	{"Link.hrefLang", func(s string) ap.Item {
+		return &ap.Link{ID: eid, Type: ap.LinkType, Href: eid, HrefLang: ap.LangRef(s)}
+	}, []interface{}{"hrefLang"}},
 	{"Link.name", func(s string) ap.Item { return &ap.Link{ID: eid, Type: ap.MentionType, Href: eid, Name: nlvOf(s)} }, []interface{}{"name"}},
 	{"Place.units", func(s string) ap.Item { return &ap.Place{ID: eid, Type: ap.PlaceType, Units: s} }, []interface{}{"units"}},
 	{"Tombstone.formerType", func(s string) ap.Item {
@@ -253,7 +255,9 @@ var emitPositions = []emitPos{
 	{"Collection.items[between-empties]", func(s string) ap.Item {
 		return &ap.OrderedCollection{ID: eid, Type: ap.OrderedCollectionType, OrderedItems: ap.ItemCollection{ap.IRI("https://example.com/first"), &ap.Object{}, ap.IRI(s), nil}}
 	}, []interface{}{"orderedItems", 1}},
-	{"ItemCollection[after-nil]", func(s string) ap.Item { return ap.ItemCollection{nil, ap.IRI(""), ap.IRI(s), ap.IRI("https://example.com/last")} }, []interface{}{0}},
+	{"ItemCollection[after-nil]", func(s string) ap.Item {
+		return ap.ItemCollection{nil, ap.IRI(""), ap.IRI(s), ap.IRI("https://example.com/last")}
+	}, []interface{}{0}},
 	{"IRI", func(s string) ap.Item { return ap.IRI(s) }, []interface{}{}},
 	{"IRIs[1]", func(s string) ap.Item { return ap.IRIs{"https://example.com/first", ap.IRI(s)} }, []interface{}{1}},
 	{"ItemCollection[1]", func(s string) ap.Item { return ap.ItemCollection{ap.IRI("https://example.com/first"), ap.IRI(s)} }, []interface{}{1}},
